@@ -404,6 +404,57 @@ fn run_case(case: &Val) -> Val {
                 }
             })
         }
+        // [11, ctx, emax, raddr, cid, source, nh, attrs]: a route is inserted into a real
+        // table::Table and exported to one neighbour; then the LLGR period of its
+        // source begins (Table::restale_llgr) and the resulting changes are exported
+        // to the same neighbour.  Observation: the sink operations of the two phases
+        // (dest id and path id are the table's allocation, printed as 1).
+        11 => {
+            let ctx = ctx_of(case.at(1));
+            let emax = case.at(2).usize();
+            let raddr = ip_of(case.at(3));
+            let cid = cid_of(case.at(4));
+            let src = src_of(case.at(5));
+            let nh = nh_opt_of(case.at(6));
+            let attrs = attrs_of(case.at(7));
+            let mut t = table::Table::new(0);
+            let net: packet::Nlri = "10.9.0.0/24".parse().unwrap();
+            let mut map = if emax == 1 {
+                ExportMap::new([])
+            } else {
+                ExportMap::new([Family::IPV4])
+            };
+            let norm = |ops: Vec<Val>| -> Val {
+                Val::L(
+                    canon_ops(ops)
+                        .into_iter()
+                        .map(|o| {
+                            let mut l = o.list().to_vec();
+                            l[1] = Val::n(1u8);
+                            if emax != 1 {
+                                l[2] = Val::n(1u8);
+                            }
+                            Val::L(l)
+                        })
+                        .collect(),
+                )
+            };
+            let mut sink = RecSink { ops: Vec::new() };
+            match t.insert(
+                src.clone(), Family::IPV4, net.clone(), 0, nh, attrs.clone(), Some(attrs), false, false, None, 0,
+            ) {
+                table::InsertResult::Changed(ch) => {
+                    process_nlri_change(&ch, emax, raddr, &mut map, &mut sink, &ctx, None, cid, None, None, None);
+                }
+                _ => panic!("verif: insert into an empty table must change it"),
+            }
+            let ops1 = std::mem::take(&mut sink.ops);
+            for ch in t.restale_llgr(src.remote_addr, Family::IPV4) {
+                process_nlri_change(&ch, emax, raddr, &mut map, &mut sink, &ctx, None, cid, None, None, None);
+            }
+            let ops2 = std::mem::take(&mut sink.ops);
+            Val::L(vec![norm(ops1), norm(ops2)])
+        }
         t => panic!("verif: unknown case tag {}", t),
     }
 }
